@@ -472,7 +472,7 @@ Section Clauses.
   Qed.
 
   Lemma akind_eqb_refl k : akind_eqb k k = true.
-  Proof. destruct k; reflexivity. Qed.
+  Proof. destruct k; try reflexivity. apply String.eqb_refl. Qed.
 
   Lemma inverse_key m : contains_char us m = false ->
     to_flag ("no-" ++ m)%string = ("--no-" ++ m)%string.
@@ -504,7 +504,7 @@ Section Clauses.
         rewrite (kind_name_expected s p k Ek). apply String.eqb_refl. }
       assert (V : match expected_kind s p, takes_of (cliT s) (p_name p) with
                   | Some KBool, Some tv => negb tv | _, Some _ => true | _, None => false end = true).
-      { rewrite Tk. destruct (expected_kind s p) as [[| | |]|] eqn:Ek; try reflexivity.
+      { rewrite Tk. destruct (expected_kind s p) as [[| | | |? ? ?]|] eqn:Ek; try reflexivity.
         rewrite Ea, (bool_takes_no_value _ _ _ _ Ek). reflexivity. }
       rewrite K, N, V. cbn [andb].
       destruct (wants_inverse s p) eqn:Ew; [|reflexivity].
